@@ -17,6 +17,27 @@ use std::time::{Duration, SystemTime};
 use xor_name::XorName;
 
 pub const STRANGER: u64 = 100;
+/// payee ids standing for claimed peer-id bytes that do not decode: `[0xFF,0xFF,0xFF]` / empty
+pub const UNDEC_FF: u64 = 999;
+pub const UNDEC_EMPTY: u64 = 998;
+
+/// `EncodedPeerId` is a serde newtype over bytes: craft one whose bytes are not a peer id
+pub fn encoded_id(payee: u64) -> EncodedPeerId {
+    let raw: Option<Vec<u8>> = match payee {
+        UNDEC_FF => Some(vec![0xFF, 0xFF, 0xFF]),
+        UNDEC_EMPTY => Some(vec![]),
+        _ => None,
+    };
+    match raw {
+        Some(bytes) => {
+            let enc = rmp_serde::to_vec(&bytes).expect("ser bytes");
+            let e: EncodedPeerId = rmp_serde::from_slice(&enc).expect("crafted EncodedPeerId");
+            assert!(e.to_peer_id().is_err());
+            e
+        }
+        None => EncodedPeerId::from(peer_id(payee)),
+    }
+}
 
 pub fn sha3(bytes: &[u8]) -> [u8; 32] {
     let mut h = Sha3_256::new();
@@ -84,6 +105,8 @@ pub fn key_str(k: &RecordKey) -> String {
 #[derive(Clone, Debug, PartialEq)]
 pub enum PadSig {
     Valid,
+    /// validly signed, other data than `Valid` for the same counter
+    ValidOther,
     Wrong,
     Missing,
 }
@@ -143,6 +166,7 @@ pub fn parse_content(s: &str) -> Option<DContent> {
             }
             let sig = match p[2] {
                 "v" => PadSig::Valid,
+                "d" => PadSig::ValidOther,
                 "w" => PadSig::Wrong,
                 "n" => PadSig::Missing,
                 _ => return None,
@@ -199,7 +223,11 @@ pub fn parse_pay(s: &str) -> Option<Option<PayD>> {
             return None;
         }
         quotes.push(QuoteD {
-            payee: p[0].parse().ok()?,
+            payee: match p[0] {
+                "x" => UNDEC_FF,
+                "y" => UNDEC_EMPTY,
+                v => v.parse().ok()?,
+            },
             signer: p[1].parse().ok()?,
             sig: p[2] == "1",
             time: p[3].chars().next()?,
@@ -233,11 +261,11 @@ pub fn pad_data(owner: u64, n: u64) -> Bytes {
 
 pub fn build_pad(owner: u64, n: u64, sig: &PadSig) -> Scratchpad {
     let sk = bls_sk(owner);
-    let data = pad_data(owner, n);
+    let data = if *sig == PadSig::ValidOther { Bytes::from(format!("verif-pad-other-{owner}-{n}").into_bytes()) } else { pad_data(owner, n) };
     let mut to_sign = n.to_be_bytes().to_vec();
     to_sign.extend_from_slice(&sha3(&data));
     let signature = match sig {
-        PadSig::Valid => Some(sk.sign(&to_sign)),
+        PadSig::Valid | PadSig::ValidOther => Some(sk.sign(&to_sign)),
         PadSig::Wrong => Some(bls_sk(STRANGER).sign(&to_sign)),
         PadSig::Missing => None,
     };
@@ -340,7 +368,7 @@ pub fn build_pay(p: &PayD, address_xorname: [u8; 32], salt: u64) -> BuiltPay {
             signature,
         };
         chain.push((quote.hash().0, q.valid, q.amount));
-        peer_quotes.push((EncodedPeerId::from(peer_id(q.payee)), quote));
+        peer_quotes.push((encoded_id(q.payee), quote));
     }
     BuiltPay { proof: ProofOfPayment { peer_quotes }, chain }
 }
